@@ -311,20 +311,29 @@ func setStatus(cmdStatus map[plumbing.ReferenceName]error, firstErr *error, ref 
 	}
 }
 
-func referenceExists(s storer.ReferenceStorer, n plumbing.ReferenceName) (bool, error) {
-	_, err := s.Reference(n)
+// currentReference returns the stored reference, or nil when it does not exist.
+func currentReference(s storer.ReferenceStorer, n plumbing.ReferenceName) (*plumbing.Reference, error) {
+	ref, err := s.Reference(n)
 	if err == plumbing.ErrReferenceNotFound {
-		return false, nil
+		return nil, nil
 	}
 
-	return err == nil, err
+	return ref, err
 }
 
 func updateReferences(st storage.Storer, req *packp.UpdateRequests, cmdStatus map[plumbing.ReferenceName]error, firstErr *error) {
 	for _, cmd := range req.Commands {
-		exists, err := referenceExists(st, cmd.Name)
+		cur, err := currentReference(st, cmd.Name)
 		if err != nil {
 			setStatus(cmdStatus, firstErr, cmd.Name, err)
+			continue
+		}
+		exists := cur != nil
+
+		// The old value sent by the client must be the value the reference
+		// holds now; a stale view must not overwrite or delete it.
+		if exists && cmd.Action() != packp.Create && !cur.Hash().Equal(cmd.Old) {
+			setStatus(cmdStatus, firstErr, cmd.Name, ErrUpdateReference)
 			continue
 		}
 
@@ -353,7 +362,8 @@ func updateReferences(st storage.Storer, req *packp.UpdateRequests, cmdStatus ma
 			}
 
 			ref := plumbing.NewHashReference(cmd.Name, cmd.New)
-			err := st.SetReference(ref)
+			old := plumbing.NewHashReference(cmd.Name, cmd.Old)
+			err := st.CheckAndSetReference(ref, old)
 			setStatus(cmdStatus, firstErr, cmd.Name, err)
 		}
 	}
